@@ -20,7 +20,7 @@ ASSUMPTIONS = [
 ]
 
 
-def rnd_curve(rng, dim, closed=False):
+def rnd_curve(rng, dim, closed=False, dup=False):
     n = rng.choice([2, 3, 4, 6, 10, 25])
     scale = rng.choice([1e-3, 0.1, 1.0, 1.0, 10.0, 200.0])
     if closed and dim == 2:
@@ -35,6 +35,10 @@ def rnd_curve(rng, dim, closed=False):
     for _ in range(n - 1):
         step = scale * rng.choice([0.01, 0.3, 1.0, 1.0])
         pts.append([a + rng.uniform(-1, 1) * step + (step if j == 0 else 0) for j, a in enumerate(pts[-1])])
+    if dup and rng.random() < 0.3:
+        # a point given twice in a row (two runs joined at their shared end, a section chain): the curve is the same curve
+        i = rng.randrange(len(pts))
+        pts.insert(i, list(pts[i]))
     return pts
 
 
@@ -44,7 +48,7 @@ def length_of(pts):
 
 def gen_curve(rng, dim):
     closed = dim == 2 and rng.random() < 0.4
-    pts = rnd_curve(rng, dim, closed)
+    pts = rnd_curve(rng, dim, closed, dup=True)
     L = length_of(pts) + (math.dist(pts[0], pts[-1]) if closed else 0.0)
     r = rng.random()
     if r < 0.4:
